@@ -39,6 +39,15 @@ predicate judged there, "M" = also compared with the extracted model).  "+" mark
   however many unrelated signatures               same (<=6);  + heavy-padding: 30-300 (thorough 3000) unrelated, at front /
                                                   back / between / random, ids of rows OUTSIDE the set, out-of-set rows NULL
                                                   or sharing an ncbi_id with a genome of the set                              P M
+  SIZES of the stored signatures                  was: 20 pool signatures of tens to hundreds of k-mers (random lengths), none empty -- sums /
+  ("all signature files")                         differences of neighbouring lengths never coincided and no two were equal.
+                                                  + size-structure: a second pool of 0..6 k-mers (8 contents per size, distance vectors
+                                                  to the 4 queries pairwise distinct); enumerated layouts g(a) x(b) g(c) for all
+                                                  a,b,c <= 3, g(a) g(c), g(a) x(b) x(c) g(a+b+c) and mirror, three-genome chains, zero-
+                                                  length genome / unrelated signatures, something stored in front / behind; random
+                                                  layouts over small size palettes mixed with long signatures; x 4 attrs x HDF5 file
+                                                  (dir / ctor / load) / in-memory SignatureArray / SignatureList x chunk sizes 1, 2, 3,
+                                                  5, 1000, None x k-mer dtypes; some through the command line / with a missing one  P M
   every distance from the own signature           load kind: jaccarddist_matrix(ref_indices=sig_indices, chunksize) cells, every
                                                   closest_genomes entry and closest_match of query()                         P M
                                                   + query() call forms (QueryParams / keywords with NumPy ints / defaults /
@@ -193,7 +202,12 @@ RULE = ('load: genome rows (4 identifier columns, NULLs, rows outside the genome
         'dir: directory listing from the name grammar; non-trivial: >=2 entries or an entry whose name is a near '
         'miss of a database file name. cli: query through the command line; non-trivial as load. '
         'Audit streams (same rules; see the table in the module docstring): identifier-values (falsy / extreme / near-miss '
-        'identifiers), heavy-padding (30-300 unrelated signatures), id-storage (HDF5 string / integer widths / byte order, '
+        'identifiers), heavy-padding (30-300 unrelated signatures), size-structure (signatures of 0..6 k-mers from a second pool, so '
+        'that lengths of neighbouring signatures in the file are equal, zero, or sums / differences of each other: enumerated layouts '
+        'genome(a) unrelated(b) genome(c) for all a,b,c <= 3, adjacent genomes, two unrelated between, three-genome chains, and random '
+        'layouts over small size palettes; the genomes\' own signatures differ pairwise in content unless empty and every small '
+        'signature has its own vector of distances to the four queries, all four queries asked, so a genome compared through any '
+        'other stored signature shows; file / constructor / load() / in-memory array and list, chunk sizes 1..5 / 1000 / None), id-storage (HDF5 string / integer widths / byte order, '
         'in-memory collections), entry-forms (load(), path forms, keyword calls, query call forms, repeated queries), '
         'not-identifier-attributes, compound-defects-and-harmless-oddities, directories-special (links, empty, many files, '
         'odd names, missing path), cli-forms (csv / archive / genome files / env var), database-layouts (the genome database file '
@@ -219,6 +233,10 @@ TRUSTED = ['SQLAlchemy/SQLite: `genomeset.genomes.join(...).add_columns(attr)` r
            'names of one directory are pairwise distinct',
            'NumPy float32 division of the exact intersection/union counts as the directly computed distance '
            '(cross-checked against gambit.metric.jaccarddist on the whole pool in setup)',
+           'the small signature pool of stream size-structure (harness _small_pool): 1 empty + 8 signatures of each size 1..6 made of '
+           'k-mers of the queries; setup fails unless their distance vectors over the four queries are pairwise distinct; their '
+           'directly computed distances are cross-checked against gambit.metric.jaccarddist like the others; an empty stored '
+           'signature is at distance 1 from every (non-empty) query',
            'harness/c04.py file construction (template database + sqlite3 inserts or LAYOUT OPS through sqlite3 / SQLAlchemy, '
            'dump_signatures); layout_walk: the finished file of an op list holds exactly the rows of the case\'s table',
            'kind seq: the interpreter _SeqRun (which slot holds what, closing order, prints obj_print / sigs_print / dir_print of the '
@@ -244,6 +262,10 @@ ATTR_CODE = {'key': 0, 'genbank_acc': 1, 'refseq_acc': 2, 'ncbi_id': 3}
 K, PREFIX = 6, 'AT'
 POOL_SEED = 40004
 NPOOL, NQUERY = 20, 4
+# the SMALL pool (stream size-structure): signatures of 0..SMALL_MAX k-mers, SMALL_VARIANTS of every size with pairwise different
+# content; pool index NPOOL = the empty signature, small_index(size, variant) the others
+SMALL_MAX, SMALL_VARIANTS = 6, 8
+NPOOL_ALL = NPOOL + 1 + SMALL_MAX * SMALL_VARIANTS
 ERRNAME = {1: 'id_attr None', 2: 'bad id_attr', 3: 'genomes without value', 4: 'unmatched genomes', 5: 'duplicated match',
            6: 'no genome file', 7: 'multiple genome files', 8: 'no signature file', 9: 'multiple signature files',
            10: 'not a genome db', 11: 'not a signature file'}
@@ -300,7 +322,9 @@ def _pool():
 		if all(len(set(row)) == NPOOL and all(0 < d < 1 for d in row) for row in table):
 			break
 		seed += 1
-	_S['pool'] = [np.array(sorted(s), dtype=np.uint16) for s in refs]
+	small = _small_pool(qs)
+	table = [row + [_direct(q, r) for r in small] for row, q in zip(table, qs)]
+	_S['pool'] = [np.array(sorted(s), dtype=np.uint16) for s in refs + small]
 	_S['queries'] = [np.array(sorted(s), dtype=np.uint16) for s in qs]
 	_S['queries_pristine'] = [q.copy() for q in _S['queries']]
 	_S['table'] = table
@@ -310,6 +334,46 @@ def _pool():
 		for ri, r in enumerate(_S['pool']):
 			if _f32(jaccarddist(q, r)) != table[qi][ri]:
 				raise RuntimeError(f'direct distance {table[qi][ri]} != jaccarddist {jaccarddist(q, r)} (pool {qi},{ri})')
+
+
+def small_index(size, variant):
+	"""pool index of the small signature with `size` k-mers, content number `variant` (all empty signatures are one)"""
+	return NPOOL if size == 0 else NPOOL + 1 + (size - 1) * SMALL_VARIANTS + variant % SMALL_VARIANTS
+
+
+def small_size(p):
+	"""number of k-mers of pool signature p"""
+	return len(_S['pool'][p])
+
+
+def _small_pool(qs):
+	"""the small pool: [empty] + SMALL_VARIANTS signatures of every size 1..SMALL_MAX (deterministic).  Their k-mers are taken from
+	k-mers of the queries (every membership pattern over the four queries), so that the vector of directly computed distances to
+	the four queries is pairwise different over the whole small pool (the empty signature: distance 1 to every query, every
+	other one < 1 to some query): a genome compared through any OTHER small signature shows in some query's row."""
+	rng = random.Random(POOL_SEED + 77)
+	by_pattern = {}
+	for x in sorted(set().union(*qs)):
+		by_pattern.setdefault(tuple(x in q for q in qs), []).append(x)
+	hot = []
+	for pat in sorted(by_pattern):
+		hot += rng.sample(by_pattern[pat], min(4, len(by_pattern[pat])))
+	out, seen = [set()], {tuple(_direct(q, set()) for q in qs)}
+	for size in range(1, SMALL_MAX + 1):
+		have = 0
+		for _ in range(100000):
+			if have == SMALL_VARIANTS:
+				break
+			cand = set(rng.sample(hot, size))
+			vec = tuple(_direct(q, cand) for q in qs)
+			if vec in seen:
+				continue
+			seen.add(vec)
+			out.append(cand)
+			have += 1
+		if have != SMALL_VARIANTS:
+			raise RuntimeError(f'small pool: only {have} signatures of size {size} with distinct distance vectors')
+	return out
 
 
 def _template():
@@ -383,7 +447,7 @@ def _fasta_queries():
 		for salt in range(200):
 			rng = random.Random(POOL_SEED + 1000 * qi + salt)
 			recs = base + [PREFIX + ''.join(rng.choice(NUC) for _ in range(K)) for _ in range(salt % 7)]
-			row = [_direct(own_kmers(recs), r) for r in pool_sets]
+			row = [_direct(own_kmers(recs), r) for r in pool_sets[:NPOOL]]
 			if len(set(row)) == NPOOL and all(0 < x < 1 for x in row):
 				break
 		path = os.path.join(_S['root'], f'q{qi}.fasta')
@@ -395,7 +459,7 @@ def _fasta_queries():
 		table.append([_direct(mine, r) for r in pool_sets])
 	_S['fa_files'] = files
 	_S['fa_table'] = table
-	_S['fa_distinct'] = all(len(set(row)) == NPOOL for row in table)
+	_S['fa_distinct'] = all(len(set(row[:NPOOL])) == NPOOL for row in table)
 	lst = os.path.join(_S['root'], 'queries.txt')
 	with open(lst, 'w') as f:
 		f.write(''.join(p + '\n' for p in files))
@@ -745,7 +809,7 @@ def validate(case):
 	ids = [s[0] for s in case['sigs']]
 	if not (all(isinstance(i, int) and not isinstance(i, bool) for i in ids) or all(isinstance(i, str) and '\0' not in i for i in ids)):
 		return False
-	if any(not (0 <= s[1] < NPOOL) for s in case['sigs']):
+	if any(not (0 <= s[1] < NPOOL_ALL) for s in case['sigs']):
 		return False
 	cs = case.get('chunksize')
 	if not (cs is None or cs > 0):
@@ -2714,6 +2778,133 @@ def gen_heavy_padding(ctx, rng):
 	ctx.count('stream:heavy-padding', n_h)
 
 
+SIZE_PALETTES = [(0, 1), (0, 1, 2), (1, 2, 3), (0, 1, 2, 3), (1, 1, 2), (2, 4, 6), (3,), (0, 0, 1, 5), (1, 2, 3, 4, 5, 6), (0, 1, 2, 3, 4, 5, 6)]
+SIZE_VIAS = [('dir', None), ('ctor', None), ('mem', ['array', 'list']), ('load', None), ('dir', None), ('mem', ['list', 'tuple']),
+             ('ctor', None), ('mem', ['array', 'npscalars'])]
+SIZE_CHUNKS = [None, 1, 2, 1000, 3, None, 2, 5]
+GENOME_VARIANTS = 5      # contents 0..4 of a size go to genomes, 5..SMALL_VARIANTS-1 to unrelated signatures
+
+
+def size_layouts():
+	"""the enumerated part of stream size-structure: file layouts [(is a genome's signature, number of k-mers) ...] in which sums and
+	differences of the sizes of neighbouring signatures coincide in every way a small scope allows"""
+	out = []
+	for a, b, c in itertools.product(range(4), repeat=3):                 # g(a) x(b) g(c): a+b=c, a=b+c, a=c, b=0, a=0 ... all of them
+		out.append([(True, a), (False, b), (True, c)])
+	for a, c in itertools.product(range(SMALL_MAX + 1), repeat=2):        # g(a) g(c): adjacent genomes, equal sizes, zero-length ones
+		if a == c or a == 0 or c == 0 or abs(a - c) == 1:
+			out.append([(True, a), (True, c)])
+	for a, b, c in itertools.product(range(3), repeat=3):                 # g(a) x(b) x(c) g(a+b+c) and its mirror image
+		out.append([(True, a), (False, b), (False, c), (True, a + b + c)])
+		out.append([(True, a + b + c), (False, b), (False, c), (True, a)])
+	for a in range(1, 4):                                                 # g(a) x(a) g(2a) x(2a) g(4a)...: three genomes, repeated coincidence
+		out.append([(True, a), (False, a), (True, 2 * a), (False, a), (True, min(3 * a, SMALL_MAX))])
+		out.append([(True, a), (False, a), (True, a), (False, a), (True, a)])
+		out.append([(True, a), (True, a), (False, a), (True, 2 * a)])
+		out.append([(False, a), (True, a), (False, 2 * a), (True, 2 * a), (True, a)])
+	for a, b in itertools.product(range(3), repeat=2):                    # three genomes g(a) x(b) g(a+b) x(a) g(2a+b) and g x g g
+		out.append([(True, a), (False, b), (True, a + b), (False, a), (True, 2 * a + b)])
+		out.append([(True, a), (False, b), (True, a + b), (True, b)])
+	return out
+
+
+def size_case(rng, attr, layout, chunksize, via, mem=None, drop=None, big_pads=0):
+	"""layout [(is genome, size) ...] in file order -> load case: genome j of the set owns the j-th genome signature of a random
+	permutation, every genome signature has its own content (variants 0..GENOME_VARIANTS-1 of its size; an empty signature is
+	empty), unrelated signatures take the other variants"""
+	n = sum(1 for g, _ in layout if g)
+	genomes = mk_genomes(n, extra_rows=rng.choice([0, 1]))
+	col = 1 + ATTRS.index(attr)
+	owner = list(range(n))
+	rng.shuffle(owner)
+	used = {}
+	sigs, gi = [], 0
+	for pos, (is_g, size) in enumerate(layout):
+		if is_g:
+			v = used.get(size, 0)
+			used[size] = v + 1
+			sigs.append([genomes[owner[gi]][col], small_index(size, v % GENOME_VARIANTS)])
+			gi += 1
+		else:
+			sigs.append([foreign_id(attr, pos), small_index(size, GENOME_VARIANTS + rng.randrange(SMALL_VARIANTS - GENOME_VARIANTS))])
+	for j in range(big_pads):      # ordinary (long) unrelated signatures around the small ones
+		sigs.insert(rng.choice([0, len(sigs), rng.randint(0, len(sigs))]), [foreign_id(attr, 500 + j), rng.randrange(NPOOL)])
+	if drop is not None and n:
+		victim = genomes[drop % n][col]
+		sigs = [x for x in sigs if not same_id(x[0], victim)]
+	c = load_case(attr, genomes, sigs, chunksize, list(range(NQUERY)), via=via, report=rng.choice([1, 3, 10]))
+	if via == 'mem':
+		c['mem'] = list(mem or ['array', 'list'])
+	return c
+
+
+def gen_size_structure(ctx, rng):
+	"""SIZE STRUCTURE of the signature file: the k-mer COUNTS of neighbouring signatures (genomes' and unrelated ones) stand in
+	arithmetic relations -- equal, zero, one the sum / difference of others -- which signatures of random length never show.
+	Whatever the sizes, every genome must still be compared through its own signature: the selection of the genomes' signatures out
+	of the file (HDF5 data set or in-memory array / list) works on offsets into ONE concatenated array of k-mers, where such
+	coincidences decide which ranges look contiguous.  Enumerated layouts (size_layouts), with and without further signatures in
+	front, then random layouts over small size palettes; all four identifier attributes, file / constructor / load() / in-memory
+	SignatureArray and SignatureList, chunk sizes 1 / 2 / 3 / 5 / 1000 / None, k-mers stored as u2 / u4 / u8 / i4 / i8, all four
+	queries; a few through the command line and with a genome's signature missing (must fail)."""
+	n_s = 0
+	layouts = size_layouts()
+	for i, layout in enumerate(layouts * ctx.pick(1, 4)):
+		lay = list(layout)
+		r = i % 4
+		if r == 1:      # something stored in front: the first genome signature does not start at offset 0
+			lay = [(False, rng.choice([0, 1, 2, 3]))] + lay
+		elif r == 2:
+			lay = lay + [(False, rng.choice([0, 1, 2]))]
+		elif r == 3 and rng.random() < 0.5:
+			lay = [(True, rng.choice([0, 1, 2]))] + lay
+		via, mem = SIZE_VIAS[(i // 4 + i) % len(SIZE_VIAS)]
+		n = sum(1 for g, _ in lay if g)
+		cs = SIZE_CHUNKS[(i // 3) % len(SIZE_CHUNKS)]
+		if cs == 1 and i % 2:      # the genomes of a coincidence have to meet in one chunk to be selected together
+			cs = n
+		c = size_case(rng, ATTRS[i % 4], lay, cs, via, mem, big_pads=2 if i % 9 == 4 else 0)
+		if i % 5 == 0:
+			c['sig_dtype'] = SIG_DTYPES[(i // 5) % len(SIG_DTYPES)]
+		yield 'load', c
+		n_s += 1
+	ctx.count('stream:size-structure enumerated layouts', n_s)
+	n_r = 0
+	for i in range(ctx.pick(250, 2500)):
+		pal = SIZE_PALETTES[i % len(SIZE_PALETTES)]
+		n = rng.choice([2, 3, 4, 6, 9])
+		left = {s: GENOME_VARIANTS for s in set(pal)}
+		lay, have = [], 0
+		while have < n:
+			if rng.random() < 0.45:
+				lay.append((False, rng.choice(pal)))
+				continue
+			ok = [s for s in pal if s == 0 or left[s] > 0]
+			if not ok:
+				break
+			s = rng.choice(ok)
+			left[s] -= 1
+			lay.append((True, s))
+			have += 1
+		for _ in range(rng.choice([0, 0, 1, 3])):
+			lay.append((False, rng.choice(pal)))
+		via, mem = SIZE_VIAS[rng.randrange(len(SIZE_VIAS))]
+		c = size_case(rng, ATTRS[i % 4], lay, rng.choice([None, None, 1, 2, 3, 4, 1000]), via, mem,
+		              drop=rng.randrange(100) if rng.random() < 0.06 else None, big_pads=rng.choice([0, 0, 0, 1, 4]))
+		if rng.random() < 0.25:
+			c['sig_dtype'] = rng.choice(SIG_DTYPES)
+		if via != 'mem' and rng.random() < 0.3:
+			c['ids_as'] = rng.choice(['i8', '>i8', 'u8']) if c['attr'] == 'ncbi_id' else rng.choice(STR_STORE)
+		if i % 25 == 7 and via == 'dir':
+			c['fmt'] = rng.choice(['json', 'archive'])
+			yield 'cli', c
+		else:
+			yield 'load', c
+		n_r += 1
+	ctx.count('stream:size-structure random palettes', n_r)
+	ctx.count('stream:size-structure', n_s + n_r)
+
+
 def gen_id_storage(ctx, rng):
 	"""how the identifiers are STORED: HDF5 strings written from object / NumPy unicode / bytes arrays, every integer
 	width (signed and unsigned), and in-memory collections (SignatureList / SignatureArray; identifiers as list, tuple,
@@ -3812,6 +4003,7 @@ def generate(ctx):
 	# ---- streams added by the coverage audit (see the table in the module docstring) -----------------------
 	yield from gen_identifier_values(ctx, rng)
 	yield from gen_heavy_padding(ctx, rng)
+	yield from gen_size_structure(ctx, rng)
 	yield from gen_id_storage(ctx, rng)
 	yield from gen_entry_forms(ctx, rng)
 	yield from gen_not_id_attrs(ctx, rng)
